@@ -4,7 +4,10 @@
 set -u
 patch=$(readlink -f "$1"); id=$2; tier=${3:-quick}
 wt=$(mktemp -d /tmp/verif-mut-XXXXXX); out=$(mktemp -d /tmp/verif-mutout-XXXXXX)
-git -C /repo worktree add -q --detach "$wt" HEAD || exit 2
+# a seeded change whose manifest condition was removed by a later fix: commit names the tree
+# it was confirmed on (seeded/<name>/base)
+base=HEAD; [ -f "$(dirname "$patch")/base" ] && base=$(cat "$(dirname "$patch")/base")
+git -C /repo worktree add -q --detach "$wt" "$base" || exit 2
 cleanup() { git -C /repo worktree remove --force "$wt" >/dev/null 2>&1; rm -rf "$wt" "$out"; }
 trap cleanup EXIT
 if ! git -C "$wt" apply "$patch"; then echo "PATCH-FAILED $patch"; exit 2; fi
